@@ -379,6 +379,14 @@ def make_case(spec, n_ids, seed, with_c, variant='support'):
             obs[-1, -1] += 0.25
         else:
             obs[0, 0] = -0.3
+    elif variant in ('near_obs', 'near_obs_ulp'):
+        # an individual value next to, but not equal to, the point mass of a pooled
+        # / heterogeneous dimension (relative 1e-9, or the neighbouring float)
+        obs = obs.copy()
+        sp = rp.special(spec)
+        k_ = [i for i, kind in enumerate(sp) if kind is not None][-1]
+        obs[-1, k_] = obs[-1, k_] * (1 + 1e-9) if variant == 'near_obs' \
+            else np.nextafter(obs[-1, k_], 10.0)
     if variant == 'int':
         # whole numbers inside the support; pooled / heterogeneous observations
         # follow the rounded parameters
@@ -414,6 +422,10 @@ def build(tier, seed):
             if k in ('LN', 'TG', 'P', 'H') and spec.get('centered', True):
                 elem_cases.append(make_case(spec, n_ids, seed, False, 'bad_obs'))
             elem_cases.append(make_case(spec, n_ids, seed, True, 'int'))
+            if k in ('P', 'H'):
+                elem_cases.append(make_case(spec, n_ids, seed, False, 'near_obs'))
+                elem_cases.append(make_case(spec, n_ids, seed, False,
+                                            'near_obs_ulp'))
     # covariate wrappers (default selection; selections are C07's subject)
     for inner in popbuild.elementary(min(max_d, 2),
                                      ('G', 'Gnc', 'LN', 'LNnc', 'TG', 'P')):
@@ -445,6 +457,10 @@ def build(tier, seed):
                  rp.Comp([rp.Cov(rp.G(1), 1), rp.LN(1)])):
         for n_ids in range(1, max_ids + 1):
             comp_cases.append(make_case(spec, n_ids, seed, True, 'int'))
+    for spec in (rp.Comp([rp.G(1), rp.P(1)]), rp.Comp([rp.H(1), rp.LN(1, False)]),
+                 rp.Comp([rp.Cov(rp.P(1), 1), rp.G(1)])):
+        for n_ids in range(1, max_ids + 1):
+            comp_cases.append(make_case(spec, n_ids, seed, False, 'near_obs'))
     # nested composition
     nested = rp.Comp([rp.Comp([rp.G(1), rp.P(1)]), rp.LN(1, False)])
     for n_ids in range(1, max_ids + 1):
